@@ -308,6 +308,8 @@ class Check:
                 res.failed.append((n, line, cur, msg))
                 # later files probably depend on this one: stop
                 break
+        if res.ok and self.tier == "thorough" and not os.environ.get("VERIF_NO_COQCHK"):
+            self._coqchk(wd, [n[:-2] for n in names if n.startswith("Properties")], extra_dirs, res)
         self.coverage["obligations"] += len(res.theorems)
         self.coverage["discharged"] += len(res.discharged)
         for a in sorted(res.axioms):
@@ -320,6 +322,42 @@ class Check:
         with open(os.path.join(self.work, "coq.log"), "a") as f:
             f.write(res.log)
         return res
+
+    def _coqchk(self, wd, modules, extra_dirs, res):
+        """thorough tier: re-check the compiled property files (and everything they depend on) with the independent
+        checker coqchk; its report on guard / positivity / universe switches must be empty.  Capped in time: a timeout is
+        recorded in the evidence, it is not a violation."""
+        if not modules:
+            return
+        cmd = ["coqchk", "-silent", "-o", "-Q", COQLIB, "VLib", "-R", wd, self.pid]
+        for d in extra_dirs:
+            cmd += ["-Q", d[0], d[1]]
+        cmd += ["%s.%s" % (self.pid, m) for m in modules]
+        t1 = time.time()
+        rc, out, err = sh(cmd, timeout=int(os.environ.get("VERIF_COQCHK_TIMEOUT", "900")), cwd=wd)
+        rep = self.coverage.setdefault("coqchk", [])
+        entry = {"modules": modules, "rc": rc, "seconds": round(time.time() - t1, 1)}
+        if rc == 124:
+            entry["result"] = "timed out (not a violation)"
+        elif rc != 0:
+            entry["result"] = "failed: " + (out + err)[-400:]
+            res.ok = False
+            res.failed.append(("", 0, "coqchk", "coqchk rejects the compiled property files: " + (out + err)[-800:]))
+        else:
+            out = out + "\n" + err
+            bad = []
+            for title in ("relying on type-in-type", "relying on unsafe (co)fixpoints", "whose positivity is assumed"):
+                m = re.search(re.escape(title) + r":\s*(.*?)\n\s*\n", out + "\n\n", flags=re.S)
+                if m and "<none>" not in m.group(1):
+                    bad.append(title + ": " + " ".join(m.group(1).split())[:200])
+            ax = re.search(r"\* Axioms:\s*(.*?)\n\s*\n", out + "\n\n", flags=re.S)
+            entry["axioms"] = ax.group(1).split() if ax and "<none>" not in ax.group(1) else []
+            entry["result"] = "ok" if not bad else "unsafe: " + "; ".join(bad)
+            if bad:
+                res.ok = False
+                res.failed.append(("", 0, "coqchk", "; ".join(bad)))
+        rep.append(entry)
+        self.trusted("coqchk (independent checker) run on the property files in the thorough tier")
 
     def _parse_assumptions(self, out, res):
         inax = False
